@@ -41,14 +41,22 @@ def s_oracle(c):
     X = np.array(c["rows"], dtype=float)
     y = np.array(c["y"], dtype=int)
     hist = {}
+    supplied = []
     for i, (op, ix, it) in enumerate(c["ops"]):
         rep = dict(S.summary_s(c), failing_op=i)
         try:
-            if op == "fit":
-                est.fit(X[ix], y[ix], max_iter=it, match_tracking=c["mode"], epsilon=float(c["eps"]))
-                hist = {}
-            elif op == "partial_fit":
-                est.partial_fit(X[ix], y[ix], match_tracking=c["mode"], epsilon=float(c["eps"]))
+            if op in ("fit", "partial_fit"):
+                # the caller's buffers are handed over and then re-used (overwritten in place) by the caller: the model
+                # owns what it learned
+                Xb, yb = X[ix].copy(), y[ix].copy()
+                if op == "fit":
+                    est.fit(Xb, yb, max_iter=it, match_tracking=c["mode"], epsilon=float(c["eps"]))
+                    hist, supplied = {}, [int(v) for v in y[ix]]
+                else:
+                    est.partial_fit(Xb, yb, match_tracking=c["mode"], epsilon=float(c["eps"]))
+                    supplied = supplied + [int(v) for v in y[ix]]
+                Xb[:] = 0.5
+                yb[:] = yb.max() + 1
             else:
                 a, b = est.predict_ab(X[ix])
                 p = est.predict(X[ix])
@@ -69,6 +77,8 @@ def s_oracle(c):
                 fails.append({"signature": "SimpleARTMAP/map-monotone", "text": f"category {kk} re-mapped {hist[kk]} -> {vv}", "replay": rep})
         hist = dict(est.map)
         fails.extend(map_oracle("SimpleARTMAP", est, None, f"after op {i} ({op})", rep))
+        if not fails and [int(v) for v in est.labels_] != supplied:
+            fails.append({"signature": "SimpleARTMAP/stored-targets", "text": f"after op {i} ({op}): the stored targets {[int(v) for v in est.labels_]} are not the supplied ones {supplied} (the caller re-used its label buffer after the call)", "replay": rep})
         if fails:
             return fails
     return fails
@@ -123,10 +133,11 @@ def a_oracle(c):
     for i, (op, ix) in enumerate(c["ops"]):
         rep = dict(S.summary_a(c), failing_op=i)
         try:
-            if op == "fit":
-                est.fit(X[ix], Y[ix], match_tracking=c["mode"], epsilon=float(c["eps"]))
-            elif op == "partial_fit":
-                est.partial_fit(X[ix], Y[ix], match_tracking=c["mode"], epsilon=float(c["eps"]))
+            if op in ("fit", "partial_fit"):
+                Xb, Yb = X[ix].copy(), Y[ix].copy()
+                getattr(est, op)(Xb, Yb, match_tracking=c["mode"], epsilon=float(c["eps"]))
+                Xb[:] = 0.5          # the caller re-uses its buffers
+                Yb[:] = 0.5
             else:
                 p = est.predict(X[ix])
                 est.module_b.d_min_, est.module_b.d_max_ = np.zeros(1), np.ones(1)
